@@ -15,6 +15,17 @@ RAFT_RULE = '256 (quick) / 4800 (thorough) sessions of <= 300 schedule events on
 RAFT_TRUST = ['the event table (harness/cmd/zvh/proto_raft.go) that maps events of the real nodes to abstract actions is trusted to name the right action; a wrong table shows up as a rejected certificate on the unchanged tree, not as a false acceptance of a different protocol step only as far as the state comparison after every event sees it', "membership changes, ReadIndex, RocksStorage and node/raft.go's goroutines are outside this protocol", 'single-voter groups: the certificate places the persist before the node acts on its own ack (what an application that persists before applying does; node/raft.go does not: known finding F1 under C06)']
 RAFT_PARTIAL = ['global theorems are for FIXED membership; dynamic membership (add / remove / promote, learners promoted) is exercised by no theorem (DESIGN.md section 7 C01 R)', 'the universal forward simulation from an executable model of raft.go to the abstract system is replaced by the run-time refinement certificate (per-run, not for all runs)']
 
+DATACORE_RULE = ("sessions of 20-100 well-formed hash commands (hset, hsetnx, hmset with repeated fields, hdel with repeated fields, hclear; hget, hmget, hlen, hgetall, hkeys, hvals, hexists, hkeyexist) on 2-5 keys over two tables (names that are prefixes of each other, contain ':', 0x00) "
+                 "x 7 fields (incl. the empty field, binary, prefix-related) x 5 values, on a REAL KVNode (real leader-side handlers, proposal, kvStoreSM apply) under the local-deletion layout, mem and pebble engines; EVERY answer line (write replies, read replies, the logical dump) is compared with the executable Lean storage model running the real key codec; "
+                 "the C09 invariant oracle runs after a quarter of the writes; non-trivial = answered without an error class; distinct = distinct op lines")
+DATACORE_TRUST = ["only the hash family under the local-deletion layout (no versions, no TTL) is in the executable model; one entry per apply event; well-formed commands",
+                  "the abstract codec facts (Z.HashInv.Enc) are unconditional in the theorems and proved of the real codec for key parts < 65536 bytes (C08_real_codec_facts); the server enforces 10240",
+                  "table key counter and hash index maintenance are outside the model (not visible in replies)"]
+C08_TEXT = ("Theorems (hash slice): refinement of the storage-level hash (size meta + field keys over the sorted reference store) to the plain redis hash key -> field -> value, for every codec satisfying the abstract facts: HGET reads the abstraction, HSET/HDEL replies are redis's, HSET/HDEL commute with the abstraction, the size meta never shows through; "
+            "the executable model run in the correspondence is literally these functions (C08_exec_is_model, by rfl) and the REAL codec satisfies every abstract fact for in-limit keys (C08_real_codec_facts, from C12). The executable model - with the real key codec, multi-field HMSET/HDEL incl. repeated fields, HSETNX, HCLEAR and all hash reads - is compared line by line (every reply and the logical dump) with a real KVNode. "
+            "KV / list / set / zset semantics have no theorem and no Lean model yet: C08 is claimed for the hash family only.")
+C08_NOTE = "hash family only, local-deletion layout, one entry per apply event; other types: see C09/C10/C11 oracles"
+
 CHECKS = {
     'C01': dict(
         gens=['Raft'],
@@ -145,9 +156,9 @@ CHECKS = {
     'C08': dict(
         gens=[],
         props='ZanVerif.Props.C08',
-        protos=[dict(name='data', mode='oracle', quick_seeds=1, thorough_seeds=1, classes='$^')],
-        rule=DATA_RULE,
-        trusted=DATA_TRUST,
+        protos=[dict(name='datacore', quick_seeds=2, thorough_seeds=2)],
+        rule=DATACORE_RULE,
+        trusted=DATACORE_TRUST,
         partial=['everything except hget/hset/hdel', 'duplicate fields inside one command were a genuine defect (fixed) and are outside the model'],
         assumptions=[],
         level_text="Theorems (hash slice): refinement of the storage-level hash (size meta + field keys over the sorted reference store, codec abstracted by exactly the facts C12 proves of the real encoders) to the plain redis hash key -> field -> value: HGET reads the abstraction, HSET/HDEL replies are redis's, HSET/HDEL commute with the abstraction, the size meta never shows through. All other types and commands have NO theorem yet and no Go-side oracle: C08 is claimed for this slice only.",
@@ -157,7 +168,7 @@ CHECKS = {
     'C09': dict(
         gens=[],
         props='ZanVerif.Props.C09',
-        protos=[dict(name='data', mode='oracle', quick_seeds=1, thorough_seeds=1, classes='count-enum-mismatch:')],
+        protos=[dict(name='data', mode='oracle', quick_seeds=1, thorough_seeds=1, classes='count-enum-mismatch:'), dict(name='datacore', quick_seeds=1, thorough_seeds=1, classes='count-enum-mismatch:')],
         rule=DATA_RULE,
         trusted=DATA_TRUST,
         partial=['inv preserved by hdel / set / zset / list commands: not yet theorems'],
